@@ -191,7 +191,7 @@ def square(ctx):
 
 
 def run_shard(ctx):
-    preds = ['none', 'is_tuple', 'custom']
+    preds = ['none', 'tuple_or_none', 'custom']
     modes = None
     e1.drive(ctx, ctx.tier, lambda tree, leaves, dsl, cfg: check(ctx, tree, leaves, dsl, cfg),
              profile='tiny', cfgs=e1.configs(ctx.tier, predicates=preds, modes=modes))
